@@ -475,6 +475,100 @@ theorem load_peekless_compressed_needs_rewinding :
     ∧ loadAt toyEnv false 0 "f" file 0 = some [7, 7] := by
   decide
 
+/-! ## histories: several dump / load calls in one process, bindings re-bound in between
+
+`load` keeps nothing between calls: its answer is a function of the bytes in the slot and of the CURRENT bindings
+only — whatever the process dumped, loaded or re-bound before. Stated over sequences of operations (`hstep`,
+`hfinal`): the history is arbitrary, only its last state matters, and of that state only the slot and the bindings. -/
+
+/-- Operations that do not write `slot` leave its content alone; the bindings after them are `rebindsOf`. -/
+theorem history_frame {B Obj : Type} (envOf : B → Env Obj) (slot : String) (t : List (HOp B Obj))
+    (hw : ∀ op ∈ t, op.writes slot = false) (s : Proc B) :
+    (hfinal envOf s t).files.lookup slot = s.files.lookup slot
+    ∧ (hfinal envOf s t).bindings = rebindsOf t s.bindings := by
+  induction t generalizing s with
+  | nil => exact ⟨rfl, rfl⟩
+  | cons op ops ih =>
+    have hw' : ∀ op ∈ ops, op.writes slot = false := fun o ho => hw o (List.mem_cons_of_mem _ ho)
+    have hop := hw op List.mem_cons_self
+    cases op with
+    | dump sl v c f p =>
+      simp only [HOp.writes, beq_eq_false_iff_ne, ne_eq] at hop
+      simp only [hfinal, hstep, rebindsOf]
+      cases hd : dump (envOf s.bindings) v c f p with
+      | error e => exact ih hw' s
+      | ok b =>
+        have := ih hw' { s with files := (sl, b) :: s.files }
+        refine ⟨?_, this.2⟩
+        rw [this.1]
+        simp only [List.lookup_cons]
+        have : (slot == sl) = false := by simpa [beq_eq_false_iff_ne] using fun h => hop h.symm
+        rw [this]
+    | load sl =>
+      simp only [hfinal, hstep, rebindsOf]
+      cases s.files.lookup sl <;> exact ih hw' s
+    | rebind f =>
+      simp only [hfinal, hstep, rebindsOf]
+      exact ih hw' { s with bindings := f s.bindings }
+
+/-- **`load` is history-independent.** Take two arbitrary histories `h₁`, `h₂` from arbitrary states. If, at the end,
+the slot holds the same bytes and the bindings give the same environment, `load` answers the same. -/
+theorem load_history_independent {B Obj : Type} (envOf : B → Env Obj) (slot : String)
+    (s₁ s₂ : Proc B) (h₁ h₂ : List (HOp B Obj))
+    (hfile : (hfinal envOf s₁ h₁).files.lookup slot = (hfinal envOf s₂ h₂).files.lookup slot)
+    (henv : envOf (hfinal envOf s₁ h₁).bindings = envOf (hfinal envOf s₂ h₂).bindings) :
+    (hstep envOf (hfinal envOf s₁ h₁) (.load slot)).2 = (hstep envOf (hfinal envOf s₂ h₂) (.load slot)).2 := by
+  simp only [hstep, hfile, henv]
+  cases (hfinal envOf s₂ h₂).files.lookup slot <;> rfl
+
+/-- **What a load after a history answers**: the bytes the slot held before the operations that did not write it,
+decoded under the bindings AS THEY ARE NOW (after all the re-bindings of the history) — an old file follows the
+current bindings, exactly like `pickle.loads` of the same bytes at that instant. -/
+theorem load_after_history {B Obj : Type} (envOf : B → Env Obj) (slot : String) (s : Proc B)
+    (t : List (HOp B Obj)) (hw : ∀ op ∈ t, op.writes slot = false) :
+    (hstep envOf (hfinal envOf s t) (.load slot)).2 =
+      match s.files.lookup slot with
+      | none => .noFile
+      | some b => .loaded (load (envOf (rebindsOf t s.bindings)) slot b) := by
+  obtain ⟨h1, h2⟩ := history_frame envOf slot t hw s
+  simp only [hstep, h1, h2]
+  cases s.files.lookup slot <;> rfl
+
+/-- **Round trip inside any history.** In ANY state `s` (reached by whatever history), for every object, compress
+argument, target and protocol that `dump` accepts under the current bindings: after the dump and then any
+operations that neither write that slot nor change the environment (loads and dumps of other slots, re-bindings
+that leave `envOf` as it is), `load` gives back the object. -/
+theorem roundtrip_in_history {B Obj : Type} (envOf : B → Env Obj) (s : Proc B) (L : Laws (envOf s.bindings))
+    (slot : String) (x : Obj) (compress : CompressArg) (filename : Target) (protocol : Nat)
+    (hp : protocol ≤ pickleHighestProtocol)
+    (hok : (hstep envOf s (.dump slot x compress filename protocol)).2 = .dumped)
+    (t : List (HOp B Obj)) (hw : ∀ op ∈ t, op.writes slot = false)
+    (henv : envOf (rebindsOf t s.bindings) = envOf s.bindings) :
+    (hstep envOf (hfinal envOf s (.dump slot x compress filename protocol :: t)) (.load slot)).2
+      = .loaded (some x) := by
+  simp only [hfinal]
+  cases hd : dump (envOf s.bindings) x compress filename protocol with
+  | error e => simp [hstep, hd] at hok
+  | ok b =>
+    have hs : (hstep envOf s (.dump slot x compress filename protocol)).1 = { s with files := (slot, b) :: s.files } := by
+      simp [hstep, hd]
+    rw [hs, load_after_history envOf slot _ t hw]
+    simp only [List.lookup_cons, beq_self_eq_true, henv]
+    rw [roundtrip (envOf s.bindings) L x compress filename protocol hp b hd slot]
+
+/-- Witness (the instance the driver runs): an instance of global 0 is dumped while the global is at version 0, the
+global is re-bound (version 1), the OLD file is loaded: the object comes back as an instance of the class bound NOW;
+a dump made after the re-binding comes back alike; the failed dump in between left the slot alone. -/
+theorem old_file_follows_current_bindings :
+    hreplies histEnv ⟨[], [(0, 0)]⟩
+      [.dump "a" (0, 0, 7) (.val (.int 3)) (.path "a") 4, .load "a",
+       .rebind (fun b => (0, 1) :: b), .load "a",
+       .dump "a" (0, 0, 8) (.val (.int 10)) (.path "a") 4, .load "a",
+       .dump "b" (0, 0, 9) (.tuple2 (.str "gzip") (.int 1)) .fileobj 2, .load "b", .load "c"]
+    = [.dumped, .loaded (some (0, 0, 7)), .rebound, .loaded (some (0, 1, 7)),
+       .dumpErr .valueError, .loaded (some (0, 1, 7)), .dumped, .loaded (some (0, 1, 9)), .noFile] := by
+  decide
+
 /-! ## Non-vacuity: the laws are satisfiable, the hypotheses of `roundtrip` are met by non-trivial instances -/
 
 example : Laws toyEnv where
